@@ -98,6 +98,7 @@ def validate_sessions(run, sessions, *, symptom_of=None, shards=None, interestin
     def is_rel(clause):
         return relevant is None or any(clause == r or clause.startswith(r) for r in relevant)
     outside = {}
+    sessions = [s for s in sessions if s['log']]          # a builder may decline (empty log): nothing recorded, nothing judged
     logs = [s['log'] for s in sessions]
     verdicts, tl = tlc.validate_traces('Trace_Session', logs, shards=shards, timeout=2400)
     for t in tl:
